@@ -369,6 +369,9 @@ This decides `no new unaudited panic/recursion/loop site`, the enumerated necess
     loops(m, ctx);
     withdraw(m, ctx);
     acyclic(m, ctx);
+    // the generators treat notations the linker expands (selection types, COMPONENTS OF) as unreachable!(): the order of
+    // the linking steps is what guarantees that none survives (shared with C09.order)
+    crate::rules::c09::order(m, ctx, "C08.order");
 }
 
 /// C08.acyclic: the resolvers that follow type references (classes baseline in audit/recursion.json) end because a chain
